@@ -1062,7 +1062,12 @@ def gen_intscale(draw, tier="quick"):
         # nu <= -0.5 + ... : the integral converges only conditionally or not at all
         spec["opt"]["nu"] = max(o["nu"], 0.0)
     mode = draw(st.sampled_from(["get", "get", "set_scalar", "set_list"]))
-    case = {"spec": spec, "mode": mode, "target": draw(logfloat(1e-2, 1e3))}
+    # any unit of length: the scales are proportional to len_scale over 18 decades
+    e10 = draw(st.sampled_from([0, 0, 0, -9, -6, -3, 3, 6, 9]))
+    spec["len_scale"] = float(spec["len_scale"] * 10.0**e10)
+    if "len_low" in spec.get("opt", {}):
+        spec["opt"]["len_low"] = float(spec["opt"]["len_low"] * 10.0**e10)
+    case = {"spec": spec, "mode": mode, "target": draw(logfloat(1e-2, 1e3)) * 10.0**e10}
     # a second set of shape parameters, assigned in place after the integral scale was read once
     opt2 = draw(gens.opt_args(spec["cls"], spec["dim"], mode="accuracy"))
     if spec["cls"] == "JBessel" and "nu" in opt2:
@@ -1197,7 +1202,7 @@ def check_intscale(case, rec):
         else:
             rec.discrepancy("integral_scale", e if math.isfinite(e) else 0.0, tol_)
         if not e <= tol_:
-            t = dict(tags, fn="integral_scale")
+            t = dict(tags, fn="integral_scale", rel_err=float(e) if math.isfinite(e) else 1e300)
             if region is not None:
                 t["kind"] = region
             raise Violation(
